@@ -22,6 +22,21 @@ def OK (pid : Nat) : Except PyExc α → Prop
 instance (pid : Nat) (o : Except PyExc α) : Decidable (OK pid o) := by
   unfold OK; split <;> infer_instance
 
+/-- weaker than `OK`: a well-formed value, or one of the three psutil errors carrying SOME pid (what
+    the walk methods guarantee when they query other processes on the way — see `C03_safe_parents_partial`) -/
+def OKany : Except PyExc α → Prop
+  | .ok _ => True
+  | .error (.nsp _) => True
+  | .error (.zombie _) => True
+  | .error (.ad _) => True
+  | .error _ => False
+
+instance (o : Except PyExc α) : Decidable (OKany o) := by
+  unfold OKany; split <;> infer_instance
+
+theorem OK_any {pid : Nat} {o : Except PyExc α} (h : OK pid o) : OKany o := by
+  unfold OK at h; unfold OKany; split <;> simp_all
+
 /-- "once the process is gone every later query raises NoSuchProcess" -/
 def IsNSP (pid : Nat) : Except PyExc α → Prop
   | .error (.nsp p) => p = pid
